@@ -731,7 +731,7 @@ theorem create_safe {cfg : Cfg} (hfz : cfg.freshZero = true) (hsc : cfg.syncCrea
                    slots := by intro i hi; rw [hbase.ilen] at hi; omega }
         store := ⟨by intro k hk; simp [scan] at hk, by rw [hbase.segs]; intro s hs; simp at hs,
           by rw [hbase.trees]; intro t ht; simp at ht, by intro e; simp [allEdges, logRuns, scan], by intro q hq; simp [logRuns] at hq,
-          by decide, ⟨[], by intro q hq; simp [allProps] at hq, fun _ => rfl, fun h => absurd (by decide) h⟩⟩
+          ⟨[], by intro q hq; simp [allProps] at hq, fun _ => rfl, fun h => absurd (by decide) h⟩⟩
         full := by rw [hbase.ilen]; rfl
         mpm := by show SameKey fsF.pd.hdr b.ps.pm; rw [hhdr]; exact SameKey.refl _
         mbm := by show fsF.pd.bm ≤ b.ps.bm; rw [hbm]; exact Nat.le_refl _
